@@ -596,11 +596,21 @@ func fileRoundTrip(rng *rand.Rand, n int) map[string]any {
 			f.Preamble = append(f.Preamble, &aa.Comment{Base: aa.Base{Comment: fmt.Sprintf(" c%d", i), IsLineRule: true}})
 			desc = append(desc, "cmt")
 		case 1:
-			f.Preamble = append(f.Preamble, &aa.Include{Path: fmt.Sprintf("tunables/v%d", i), IsMagic: true, IfExists: rng.Intn(2) == 0})
+			inc := &aa.Include{Path: fmt.Sprintf("tunables/v%d", i), IsMagic: true, IfExists: rng.Intn(2) == 0}
+			if rng.Intn(3) == 0 {
+				inc.Comment = " a note, with # inside"
+			}
+			f.Preamble = append(f.Preamble, inc)
 			desc = append(desc, "inc")
 		case 2:
-			f.Preamble = append(f.Preamble, &aa.Variable{Name: fmt.Sprintf("v%d", i), Define: rng.Intn(3) != 0, Values: []string{"/a", "@{bin}/{x,y}"}[:1+rng.Intn(2)]})
-			desc = append(desc, "var")
+			// values that hold '#', '=' and '+' (tmp files, options), with and without a trailing comment
+			vals := [][]string{{"/a"}, {"/a", "@{bin}/{x,y}"}, {"/{var/,}tmp/#@{int}", "/a"}, {"@{lib}/g++", "/opt/id=42.db"}}[rng.Intn(4)]
+			v := &aa.Variable{Name: fmt.Sprintf("v%d", i), Define: rng.Intn(3) != 0, Values: vals}
+			if rng.Intn(2) == 0 {
+				v.Comment = " anonymous files"
+			}
+			f.Preamble = append(f.Preamble, v)
+			desc = append(desc, fmt.Sprintf("var%d", len(vals)))
 		case 3:
 			f.Preamble = append(f.Preamble, &aa.Abi{Path: fmt.Sprintf("abi/v%d", i), IsMagic: true})
 			desc = append(desc, "abi")
